@@ -799,6 +799,6 @@ func onlyLabel(c Case) string {
 func TestHlsConsistency(t *testing.T) {
 	pbt.Run(t, pbt.Spec[Case]{
 		ID: "C10", Name: "hls-consistency", Gen: genCase, Run: run, Classify: classify, Exclude: onlyLabel,
-		Quick: 300, Thorough: 3000, Isolate: true,
+		Quick: 300, Thorough: 2500, Isolate: true,
 	})
 }
